@@ -26,7 +26,7 @@ INTER_NAMES = ["m", "g"]
 
 # ---------------------------------------------------------------------------------------------- expression trees
 # ["c", "p/q"] | ["v", name] | ["past", statevar, ["par", name] | ["lit", "p/q"]] | ["+", a, b] | ["-", a, b] | ["*", a, b]
-# | ["neg", a] | ["pow", a, k] | ["fn", f, a]
+# | ["neg", a] | ["pow", a, k] | ["fn", f, a] | ["fn2", "maxi" | "mini", a, b]
 FN_COQ = dict(absv="FAbs", sigmoid="FSig", exp="FExp", sin="FSin", cos="FCos", tanh="FTanh")
 
 
@@ -53,6 +53,8 @@ def to_py(e):
         return f"({to_py(e[1])})^{e[2]}"
     if k == "fn":
         return f"{e[1]}({to_py(e[2])})"
+    if k == "fn2":
+        return f"{e[1]}({to_py(e[2])}, {to_py(e[3])})"
     raise ValueError(e)
 
 
@@ -64,6 +66,8 @@ def walk(e):
         yield from walk(e[1])
     elif e[0] == "fn":
         yield from walk(e[2])
+    elif e[0] == "fn2":
+        yield from walk(e[2]); yield from walk(e[3])
 
 
 def bits(e, env):
@@ -86,6 +90,9 @@ def bits(e, env):
     if k == "pow":
         a = bits(e[1], env)
         return (a[0] * e[2], a[1] * e[2])
+    if k == "fn2":
+        a, b = bits(e[2], env), bits(e[3], env)
+        return (max(a[0], b[0]), max(a[1], b[1]) + 1)       # + 1: the factor 1/2 of the derivative rule
     if k == "fn":
         if e[1] == "exp":       # 2^(4*a) with |a| <= 2, or 2^(4*(a +- b))
             return (8, 8) if e[2][2][0] == "v" else (16, 16)
@@ -393,7 +400,7 @@ def dy(rng, lo, hi, den, nonzero=False):
             return str(v)
 
 
-def gen_case(rng, allow_viol=False, absv=False, want_delay=None, fns=False, nparams=None, distinct_weights=False):
+def gen_case(rng, allow_viol=False, absv=False, want_delay=None, fns=False, nparams=None, distinct_weights=False, maxmin=False):
     nn = rng.choice([1, 2, 2, 3])
     while True:
         ns = [rng.randint(1, 3) for _ in range(nn)]
@@ -485,6 +492,12 @@ def gen_case(rng, allow_viol=False, absv=False, want_delay=None, fns=False, npar
                 return ["pow", [rng.choice("+-"), a, rng.choice(pool)], 2]
             if r < 0.93:
                 return ["neg", [rng.choice("+-"), a, rng.choice(pool)]]
+            if maxmin:      # maxi / mini (fix D112); ties occur (a variable against itself shifted by 0, equal values): the model has the 1/2 rule
+                u = a if rng.random() < 0.5 else ["*", a, rng.choice(pool)]
+                v = rng.choice([rng.choice(pool), ["c", dy(rng, -2, 2, 4)], ["+", rng.choice(pool), ["c", dy(rng, -1, 1, 4, nonzero=True)]]])
+                if v == u:      # maxi(x, x): the same variable as both direct arguments does not compile at all (lambdify raises
+                    v = ["c", dy(rng, -2, 2, 4)]      # SyntaxError "duplicate argument", in get_run_func too; not a C12 matter)
+                return ["fn2", rng.choice(["maxi", "mini"]), u, v]
             if absv:
                 return ["fn", "absv", ["*", a, rng.choice(pool)]]
             return ["*", a, rng.choice(pool)]
@@ -674,6 +687,8 @@ def to_coq(e, pre, ids):
         return f"(PowN {to_coq(e[1], pre, ids)} {int(e[2])})"
     if k == "fn":
         return f"(Fn {FN_COQ[e[1]]} {to_coq(e[2], pre, ids)})"
+    if k == "fn2":
+        return f"(Fn2 { {'maxi': 'FMax', 'mini': 'FMin'}[e[1]]} {to_coq(e[2], pre, ids)} {to_coq(e[3], pre, ids)})"
     raise ValueError(e)
 
 
@@ -947,7 +962,7 @@ def check(ctx):
         for k in range(n_main):
             r = ctx.rng.random()
             cases.append(gen_case(ctx.rng, allow_viol=((FIXED_D08B or GUARD_DELAYED in listed) and r < 0.1),
-                                  absv=(0.1 <= r < 0.25),
+                                  absv=(0.1 <= r < 0.25), maxmin=(0.25 <= r < 0.4),
                                   want_delay=(True if k % 2 == 0 else None), fns=(k % 4 == 1)))
         for k in range(3 if ctx.tier == "quick" else 20):
             c = gen_case(ctx.rng, want_delay=(k % 2 == 0), absv=(k % 3 == 0))
@@ -984,7 +999,7 @@ def check(ctx):
     ctx.note(f"E1: {len(cases)} models x 3 points ({sum(1 for c in cases if has_delay(c))} with delays, "
              f"{sum(1 for i in good if 'sparse' in outs[i])} also compiled with sparse=True); J-vs-Impl mismatches {len(res['badI'])}, "
              f"J-vs-Spec mismatches {len(res['badS'])}, vector-field-vs-model mismatches {len(res['badF'])}, harness/worker errors {len(crashed)}, "
-             f"outside guard: delayed factor {len(res['delayed'])}; with exp: {sum(1 for c in cases if any(x[0] == 'fn' and x[1] == 'exp' for nd in c['nodes'] for q in [s_[2] for s_ in nd['states']] + [i_[1] for i_ in nd['inters']] for x in walk(q)))}, with absv: {sum(1 for c in cases if any(x[0] == 'fn' and x[1] == 'absv' for nd in c['nodes'] for q in [s_[2] for s_ in nd['states']] + [i_[1] for i_ in nd['inters']] for x in walk(q)))}; state maps of run/jacobian differ: {len(smap_diff)}")
+             f"outside guard: delayed factor {len(res['delayed'])}; with exp: {sum(1 for c in cases if any(x[0] == 'fn' and x[1] == 'exp' for nd in c['nodes'] for q in [s_[2] for s_ in nd['states']] + [i_[1] for i_ in nd['inters']] for x in walk(q)))}, with maxi/mini: {sum(1 for c in cases if any(x[0] == 'fn2' for nd in c['nodes'] for q in [s_[2] for s_ in nd['states']] + [i_[1] for i_ in nd['inters']] for x in walk(q)))}, with absv: {sum(1 for c in cases if any(x[0] == 'fn' and x[1] == 'absv' for nd in c['nodes'] for q in [s_[2] for s_ in nd['states']] + [i_[1] for i_ in nd['inters']] for x in walk(q)))}; state maps of run/jacobian differ: {len(smap_diff)}")
 
     # pending finding witnesses (in corpus/, finding not yet listed in known_findings.json): replayed and reported, never silent
     if pending:
